@@ -131,6 +131,147 @@ def gen_program(rng):
     return {"behaviors": behaviors, "stats": stats}
 
 
+def gen_scenario_program(rng):
+    """compose-block form: Main and sub-scenarios with try-interrupt in compose blocks and scenario guards"""
+    ids = itertools.count(1)
+    nid = lambda: next(ids)
+
+    def cond():
+        r = rng.random()
+        if r < 0.8:
+            return ["tab", rng.randrange(NATOMS)]
+        if r < 0.9:
+            return ["not", ["tab", rng.randrange(NATOMS)]]
+        return ["t>=", rng.randint(1, 6)]
+
+    subs = [f"S{i}" for i in range(rng.randint(1, 3))]
+
+    def body(depth, in_loop, allow_sub, trydepth, n=None):
+        out = []
+        for _ in range(n or rng.randint(1, 3)):
+            r = rng.random()
+            if r < 0.4:
+                out.append(["wait", nid()])
+            elif r < 0.46:
+                out.append(["log", nid()])
+            elif r < 0.6 and allow_sub:
+                names = [rng.choice(subs)]
+                rr = rng.random()
+                if rr < 0.5:
+                    out.append(["dosc", nid(), names])
+                elif rr < 0.75:
+                    out.append(["doscfor", nid(), names, rng.randint(1, 3), "steps"])
+                else:
+                    out.append(["doscuntil", nid(), names, cond()])
+            elif r < 0.66:
+                if rng.random() < 0.5:
+                    out.append(["waitfor", nid(), rng.randint(1, 2), "steps"])
+                else:
+                    out.append(["waituntil", nid(), cond()])
+            elif r < 0.74 and depth > 0:
+                out.append(["loop", rng.randint(2, 3), body(depth - 1, True, allow_sub, trydepth)])
+            elif r < 0.95 and depth > 0 and trydepth < 2:
+                out.append(make_try(depth - 1, in_loop, allow_sub, trydepth + 1))
+            else:
+                out.append(["wait", nid()])
+        return out
+
+    def make_try(depth, in_loop, allow_sub, trydepth):
+        b = body(depth, in_loop, allow_sub, trydepth)
+        hs = []
+        for _ in range(rng.randint(1, 2)):
+            h = body(0, in_loop, allow_sub, trydepth, n=rng.randint(1, 2))
+            r = rng.random()
+            term = None
+            if r < 0.35:
+                term = ["abort"]
+            elif r < 0.5 and in_loop:
+                term = ["break"]
+            elif r < 0.6 and in_loop:
+                term = ["continue"]
+            if term:
+                h.append(term)
+            elif not any(x[0] == "wait" for x in h):
+                h.insert(0, ["wait", nid()])
+            hs.append([cond(), h])
+        return ["try", b, hs]
+
+    def guards():
+        d = {}
+        if rng.random() < 0.3:
+            d["pre"] = [rng.choice([["tab", rng.randrange(NATOMS)], ["rejtab", rng.randrange(NATOMS)]])]
+        if rng.random() < 0.4:
+            d["inv"] = [rng.choice([["tab", rng.randrange(NATOMS)], ["rejtab", rng.randrange(NATOMS)], ["not", ["tab", rng.randrange(NATOMS)]]])]
+        return d
+
+    scenarios = {}
+    for sname in subs:
+        d = guards()
+        if rng.random() < 0.2:
+            d["setup"] = [["terminate_after", rng.randint(1, 3), "steps"]]
+            d["compose"] = None
+        else:
+            d["setup"] = []
+            c = body(1, False, False, 1 if rng.random() < 0.6 else 0, n=rng.randint(1, 3))
+            if not any(st[0] in ("wait", "waitfor", "waituntil", "loop", "try") for st in c):
+                c.append(["wait", nid()])
+            d["compose"] = c
+        scenarios[sname] = d
+    d = {}
+    if rng.random() < 0.4:
+        d["inv"] = [rng.choice([["tab", rng.randrange(NATOMS)], ["not", ["tab", rng.randrange(NATOMS)]]])]
+    c = body(2, False, True, 0, n=rng.randint(2, 3))
+    if not any(st[0] == "try" for st in c):
+        c.insert(rng.randrange(len(c) + 1), make_try(1, False, True, 1))
+    c.append(["wait", nid()])
+    d["setup"] = [["agent", "a0", "B0"]]
+    d["compose"] = c
+    scenarios["Main"] = d
+    return {"timestep": 1, "maxSteps": MAXSTEPS, "form": "modular", "behaviors": {"B0": {"body": [["forever", [["wait", 0]]]]}}, "monitors": {}, "scenarios": scenarios}
+
+
+def check_scenario_program(prog, tabs, res, bump):
+    """scenario form: event log + outcome against dynmodel.SimModel (machinery shared with C12)"""
+    from checks import c12
+    from rt import dynmodel
+    import scenic
+
+    src = c12.source(prog)
+    _hygiene()
+    try:
+        scenario = scenic.scenarioFromString(src, scenario="Main")
+    except Exception as e:
+        return [(None, f"a scenario-form program of the interrupt fragment does not compile: {type(e).__name__}: {str(e)[:150]}", None)], src, 0
+    bump("scenario_form_programs")
+    viol = []
+    nontriv = 0
+    for ti, table in enumerate(tabs):
+        prog["table"] = table
+        from rt import su
+
+        su.script.TABLE = {i: row for i, row in enumerate(table)}
+        try:
+            scene, _ = scenario.generate(maxIterations=1)
+        except Exception as e:
+            bump("scenario_form_generate_rejected")
+            continue
+        m = dynmodel.SimModel(prog, table, None).run()
+        r = c12.real_run(scene, prog, c12.SCHEDULES["identity"])
+        if r["outcome"] != "ok":
+            _hygiene()
+        res["evaluations"] += 1
+        bump("runs")
+        bump("scenario_form_runs")
+        bump("outcome_" + m["outcome"])
+        if m["outcome"] != "ok":
+            bump("guard_outcomes")
+            nontriv += 1
+        d = c12.compare(m, r)
+        if d:
+            viol.append((None, "[scenario form] " + d, ti))
+    return viol, src, nontriv
+
+
 def valid(prog):
     """every interrupt handler suspends or concludes (otherwise it would spin within one time step) and every
     behaviour takes at least one action"""
@@ -400,9 +541,14 @@ def run_shard(spec):
     for i in range(spec["programs"]):
         pseed = (spec["seed"] * 1000003 + spec["shard"]) * 100003 + i
         rng = random.Random(pseed)
-        prog = gen_program(rng)
-        tabs = tables(rng, spec["tables"])
-        viol, src, nontriv = check_program(prog, tabs, res, bump, rng)
+        if i % 4 == 3:
+            prog = gen_scenario_program(rng)
+            tabs = tables(rng, spec["tables"] // 2)
+            viol, src, nontriv = check_scenario_program(prog, tabs, res, bump)
+        else:
+            prog = gen_program(rng)
+            tabs = tables(rng, spec["tables"])
+            viol, src, nontriv = check_program(prog, tabs, res, bump, rng)
         for k in range(nontriv):
             res["nontrivial"].append(su.h([pseed, k]))
         if len(res["samples"]) < 1 and nontriv:
@@ -416,16 +562,19 @@ def run_shard(spec):
             per_prog += 1
             if per_prog > 3:
                 break
-            res["violations"].append({"key": key, "what": what + " || " + src.replace("\n", " ; ")[:1200], "witness": {"pseed": pseed, "table_index": ti, "ntables": spec["tables"]}})
+            res["violations"].append({"key": key, "what": what + " || " + src.replace("\n", " ; ")[:1200], "witness": {"pseed": pseed, "table_index": ti, "ntables": spec["tables"], "form": "scenario" if i % 4 == 3 else "behavior"}})
     return res
 
 
 def replay(w):
     rng = random.Random(w["pseed"])
-    prog = gen_program(rng)
-    tabs = tables(rng, w["ntables"])
-    if w.get("table_index") is not None:
-        keep = w["table_index"]
     res = {"evaluations": 0, "skipped": {}}
-    viol, src, _ = check_program(prog, tabs, res, lambda *a: None, rng)
+    if w.get("form") == "scenario":
+        prog = gen_scenario_program(rng)
+        tabs = tables(rng, w["ntables"] // 2)
+        viol, src, _ = check_scenario_program(prog, tabs, res, lambda *a: None)
+    else:
+        prog = gen_program(rng)
+        tabs = tables(rng, w["ntables"])
+        viol, src, _ = check_program(prog, tabs, res, lambda *a: None, rng)
     return [{"key": k, "what": what, "witness": w} for k, what, ti in viol if w.get("table_index") in (None, ti)]
